@@ -187,9 +187,11 @@ impl ContextualLookupBuilder<SubstitutionLookup> {
         let (lookup, id) = self.find_or_create_anon_lookup(
             |existing| match existing {
                 SubstitutionLookup::Single(subtables) => subtables.subtables.iter().all(|subt| {
+                    // `replacement` may be a single glyph replacing a whole class:
+                    // check every target, not only the first one
                     target
                         .iter()
-                        .zip(replacement.iter())
+                        .zip(replacement.clone().into_iter_for_target())
                         .all(|(a, b)| subt.can_add(a, b))
                 }),
                 _ => false,
